@@ -624,11 +624,13 @@ func dominates(a, b ssa.Instruction) bool {
 		if las := liftAll(a, b.Parent(), 0); len(las) > 0 {
 			// a happens on every path through its helper(s), and some call of the helper comes before b
 			for x := a; x.Parent() != b.Parent(); {
-				if !onEveryPath(x) {
-					return false
-				}
 				h := exactHelper(x.Parent())
 				if h == nil {
+					return false
+				}
+				// when the caller tests the helper's error and leaves with it, only the ways out of the helper
+				// that carry no error continue towards b
+				if !onEveryPath(x) && !(errorPropagated(h.site) && onEverySuccessPath(x)) {
 					return false
 				}
 				x = h.site
@@ -728,7 +730,81 @@ func guardsAt(b *ssa.BasicBlock) []Guard {
 			}
 		}
 	}
-	return out
+	return refineShortCircuit(out)
+}
+
+// refineShortCircuit: `A && B` is known false and A is known true (another guard in the list tests the same thing
+// with that outcome) ⇒ B is false; `A || B` known true and A known false ⇒ B true. This is what a tagless switch
+// gives: `case neg && v > max: … case neg: <here v <= max>`.
+func refineShortCircuit(gs []Guard) []Guard {
+	known := func(v ssa.Value, want bool) bool {
+		v, want = stripNot(v, want)
+		k := condKey(v, 0)
+		if k == "" {
+			return false
+		}
+		for _, g := range gs {
+			gv, gb := stripNot(g.Cond, g.Branch)
+			if gb == want && condKey(gv, 0) == k {
+				return true
+			}
+		}
+		return false
+	}
+	for round := 0; round < 3; round++ {
+		added := false
+		for _, g := range gs {
+			cond, br := stripNot(g.Cond, g.Branch)
+			phi, isPhi := cond.(*ssa.Phi)
+			if !isPhi {
+				continue
+			}
+			var konst string
+			switch {
+			case phi.Comment == "&&" && !br:
+				konst = "false"
+			case phi.Comment == "||" && br:
+				konst = "true"
+			default:
+				continue
+			}
+			// edges carrying the short-circuit constant come from blocks that end in `if A`; the other edge carries B
+			var rest ssa.Value
+			allKnown := true
+			for i, e := range phi.Edges {
+				if k, isK := e.(*ssa.Const); isK && k.Value != nil && k.Value.String() == konst {
+					pred := phi.Block().Preds[i]
+					ifi, isIf := pred.Instrs[len(pred.Instrs)-1].(*ssa.If)
+					if !isIf || !known(ifi.Cond, konst == "false") {
+						allKnown = false
+					}
+					continue
+				}
+				if rest != nil {
+					allKnown = false
+				}
+				rest = e
+			}
+			if !allKnown || rest == nil {
+				continue
+			}
+			ng := Guard{Cond: rest, Branch: konst == "true", If: g.If}
+			dup := false
+			for _, x := range gs {
+				if x.Cond == ng.Cond && x.Branch == ng.Branch {
+					dup = true
+				}
+			}
+			if !dup {
+				gs = append(gs, ng)
+				added = true
+			}
+		}
+		if !added {
+			break
+		}
+	}
+	return gs
 }
 
 // guardsAtDeep: guardsAt plus, inside a private helper, what holds at its only call site (inline.go). Opt-in:
